@@ -864,6 +864,9 @@ impl World {
                         if !cleared_variant {
                             if last_leaf {
                                 self.violate("C05", "wipe", "wiped-key", format!("the last leaf handed over {} instead of a wiped key", short_hex(s)));
+                                // the successor of the last-leaf key IS the wiped key: anything else is not "the
+                                // complete successor private key" either (C04; for the object API its post-state)
+                                self.violate("C04", "cb-arg-last-leaf", "callback-automaton", format!("after the last leaf (counter {}) the {} is {} instead of the wiped successor", counter, if matches!(api, Api::Fn) { "callback argument" } else { "key left in the SigningKey object" }, short_hex(s)));
                             } else {
                                 self.violate("C03", "successor", "successor", format!("key with counter {} was succeeded by {} (expected counter {})", counter, short_hex(s), counter + 1));
                                 self.violate("C04", "cb-arg", "callback-automaton", format!("callback argument {} is not the complete successor key of counter {}", short_hex(s), counter));
